@@ -74,6 +74,8 @@ func (c *c12) build() {
 	if c.cases != nil {
 		return
 	}
+	// a long value, a value with every kind of blank, and one with characters that need escaping in XML and JSON
+	c12Values["str"] = append(c12Values["str"], strings.Repeat("0123456789abcdef", 512), " lead and trail ", "a<b>&\"c\"'d'\\e")
 	leaves := make([]string, 0, len(c12Values))
 	for l := range c12Values {
 		leaves = append(leaves, l)
